@@ -18,7 +18,7 @@ REQUIRED_OBS = {"flattened": 100, "calls:expand_array": 100, "parallel": 30, "wi
 
 
 def cases(tier, seed):
-    n = 60 if tier == "quick" else 400
+    n = 60 if tier == "quick" else 1500
     cs = workload.reader_population(n, seed + 800, ndims=(2,), max_levels=4, max_fields=5)
     for i, c in enumerate(cs):
         c["sel_seed"] = seed * 43 + i
